@@ -34,9 +34,13 @@ intro = ("`seeded/mut-Cxx-n`: written by fresh sub-agents that saw only the prop
 open(os.path.join(ROOT, "seeded", "README.md"), "w").write("# Seeded changes\n\n" + intro + table)
 p = os.path.join(ROOT, "DESIGN.md")
 s = open(p).read()
-sec = "## 11. Seeded changes and which checks catch them\n\n" + intro + table + "\n"
+lessons = ""
+lp = os.path.join(ROOT, "seeded", "LESSONS.md")
+if os.path.exists(lp):   # hand-written: what the seeding rounds changed (kept outside DESIGN.md so that it survives regeneration)
+    lessons = open(lp).read().rstrip("\n") + "\n\n"
+sec = "## 11. Seeded changes and which checks catch them\n\n" + intro + lessons + table + "\n"
 if "## 11. Seeded changes" in s:
-    s = re.sub(r"## 11\. Seeded changes.*?(?=\n---------------------------------------------------------------------------\n\n## Appendix A)", sec.rstrip("\n") + "\n", s, flags=re.S)
+    s = re.sub(r"## 11\. Seeded changes.*?(?=\n---------------------------------------------------------------------------\n\n## Appendix A)", lambda _m: sec.rstrip("\n") + "\n", s, flags=re.S)
 else:
     s = s.replace("---------------------------------------------------------------------------\n\n## Appendix A", sec + "---------------------------------------------------------------------------\n\n## Appendix A", 1)
 open(p, "w").write(s)
